@@ -43,6 +43,10 @@ VLift(ev) ==
        ELSE IF Rejected(o) /\ \E j \in (a + 1)..d : NB(Ps[j]) > 1 THEN "ok"
        ELSE LiftedOK(o, Ps, child, d, a, root, hasSeq, "lift-by-sequence", ev[11])] \o
     [k \in DOMAIN ev[9] |-> Ok(ev[9][k][2] = (FirstOfType(types, d, ev[9][k][1]) >= 0), "has-ancestor-of-type")] \o
+    \* optional 12th field: the strict question (include_self = FALSE) asked of the parent object (level d) beforehand
+    (IF Len(ev) < 12 THEN <<>> ELSE
+     [k \in DOMAIN ev[12] |-> Ok(ev[12][k][2] = (d >= 1 /\ FirstOfType(types, d - 1, ev[12][k][1]) >= 0),
+                                 "has-ancestor-of-type:strict")]) \o
     << IF d = 0 THEN Ok(Rejected(ev[10]), "lift-one:refused-at-root")
        ELSE LiftedOK(ev[10], Ps, child, d, d - 1, root, FALSE, "lift-one", ev[11]) >>)
 
@@ -99,7 +103,16 @@ VNested(ev) ==
     ELSE IF o[4] # chars THEN "nested-chunk:sequence-preserved"
     ELSE "ok"
 
-Verdict(ev) == CASE ev[1] = "nchunk" -> VNested(ev) [] ev[1] = "lift1" -> VLift1(ev) [] ev[1] = "lift" -> VLift(ev) [] ev[1] = "chunk" -> VChunk(ev) [] OTHER -> "unknown-op"
+(* ["liftw", types, root, hasSeq, Ps, child, byType, idOffset] : the same lift asked of a FeatureInterval that owns the
+   location (AbstractInterval.lift_over_to_first_ancestor_of_type) *)
+VLiftW(ev) ==
+  LET types == ev[2] root == ev[3] hasSeq == ev[4] Ps == ev[5] child == ev[6] d == Len(ev[5]) IN
+  FirstBad([k \in DOMAIN ev[7] |->
+       LET t == ev[7][k][1] o == ev[7][k][2] a == FirstOfType(types, d, t) IN
+       IF a < 0 THEN Ok(Rejected(o), "interval-lift-by-type:refused-when-no-ancestor")
+       ELSE LiftedOK(o, Ps, child, d, a, root, hasSeq, "interval-lift-by-type", ev[8])])
+
+Verdict(ev) == CASE ev[1] = "liftw" -> VLiftW(ev) [] ev[1] = "nchunk" -> VNested(ev) [] ev[1] = "lift1" -> VLift1(ev) [] ev[1] = "lift" -> VLift(ev) [] ev[1] = "chunk" -> VChunk(ev) [] OTHER -> "unknown-op"
 Bad == {i \in DOMAIN Trace : Verdict(Trace[i]) # "ok"}
 ASSUME \A i \in Bad : PrintT(<<"BAD", i, Verdict(Trace[i])>>)
 ASSUME PrintT(<<"DONE", Len(Trace), Cardinality(Bad)>>)
